@@ -28,12 +28,45 @@ Definition fstate_of (par : nat -> Q) (s : mstate) (f : nat) : fstate :=
 
 (** evaluated points come from Python dictionaries: unique keys *)
 Definition op_nodup (o : mop) : Prop :=
-  match o with MEval _ p => NoDupKeys nat p | MProx _ p _ => NoDupKeys nat p | _ => True end.
+  match o with MEval _ p => NoDupKeys nat p | MProx _ p _ => NoDupKeys nat p | MLinOpt _ dir => NoDupKeys nat dir
+  | MInexact _ p _ _ => NoDupKeys nat p | _ => True end.
+
+(** worlds without an exact line search *)
+Lemma no_ls {E : ips} (o : nat -> E -> E * R) (l : nat -> E -> list E -> E) f x0 ds :
+  false = true ->
+  let x := l f x0 ds in inner (vsub x x0) (fst (o f x)) = 0 /\ forall d, In d ds -> inner d (fst (o f x)) = 0.
+Proof. discriminate. Qed.
+
+(** what it means for [ls] to be an exact line / span search for a function with gradient map [g]: the gradient
+    at the returned point is orthogonal to the displacement and to every direction; [hs = false]: none claimed *)
+Definition ls_spec {E : ips} (g : E -> E) (hs : bool) (ls : E -> list E -> E) : Prop :=
+  hs = true -> forall x0 ds,
+    let x := ls x0 ds in inner (vsub x x0) (g x) = 0 /\ forall d, In d ds -> inner d (g x) = 0.
+
+(** the exact oracle output is an inexact direction of any accuracy *)
+Lemma exact_inexact_bound {E : ips} (o : nat -> E -> E * R) (f : nat) (relative : bool) (eps : R) (x : E) :
+  nrm2 (vsub (fst (o f x)) (fst (o f x))) <= eps ^ 2 * (if relative then nrm2 (fst (o f x)) else 1).
+Proof.
+  assert (H0 : nrm2 (vsub (fst (o f x)) (fst (o f x))) = 0).
+  { unfold nrm2. rewrite inner_sub_l, !inner_sub_r. lra. }
+  rewrite H0. apply Rmult_le_pos; [apply pow2_ge_0|]. destruct relative; [apply inner_pos|lra].
+Qed.
+
+(** worlds without a linear minimisation oracle *)
+Lemma no_lmo {E : ips} (G : nat -> E * E * R -> Prop) (l : nat -> E -> E * R) f d :
+  false = true -> G f (fst (l f d), vneg d, snd (l f d)).
+Proof. discriminate. Qed.
+
+(** what it means for [ie] to be an inexact oracle for the map [g] (the gradient): within the accuracy, in the
+    absolute or the relative sense *)
+Definition inexact_spec {E : ips} (g : E -> E) (ie : bool -> R -> E -> E) : Prop :=
+  forall (relative : bool) (eps : R) (x : E),
+    nrm2 (vsub (g x) (ie relative eps x)) <= eps ^ 2 * (if relative then nrm2 (g x) else 1).
 
 (** what it means for [res] to be the proximal operator (resolvent) of the member a world is made of, in the
     world's own notion [G] of a genuine sample ([valf]: the value recorded at a point): the proximal point, with
     (x0 - prox)/gamma and the value there, is a genuine sample.  [hp = false]: no proximal operator is claimed
-    (programs then contain no proximal step on the function, [prox_ok]). *)
+    (programs then contain no proximal step on the function, [steps_ok]). *)
 Definition prox_spec {E : ips} (G : E * E * R -> Prop) (valf : E -> R) (hp : bool) (res : R -> E -> E) : Prop :=
   hp = true -> forall gamma x0, 0 < gamma ->
     G (res gamma x0, vscal (1 / gamma) (vsub x0 (res gamma x0)), valf (res gamma x0)).
@@ -66,7 +99,7 @@ Section Compose.
   Proof.
     induction ops as [|o ops IH]; intros s Hnd Hs; cbn [mrun fold_left]; [exact Hs|].
     inversion Hnd as [|? ? Ho Hnd']; subst. apply (IH (mstep s o) Hnd').
-    intros f t Hin. destruct o as [|g p|g|g p gamma]; cbn [mstep m_samples] in Hin.
+    intros f t Hin. destruct o as [|g p|g|g p gamma|g dir|g p rel eps|g x0 dirs]; cbn [mstep m_samples] in Hin.
     - apply (Hs f t Hin).
     - apply in_app_or in Hin as [Hin|[Heq|[]]]; [apply (Hs f t Hin)|]. injection Heq as <- <-. cbn [fst snd].
       split; [exact Ho|]. split; [apply NoDupKeys_single|apply NoDupKeys_single].
@@ -75,11 +108,18 @@ Section Compose.
     - apply in_app_or in Hin as [Hin|[Heq|[]]]; [apply (Hs f t Hin)|]. injection Heq as <- <-. cbn [fst snd].
       split; [|split; [apply NoDupKeys_single|apply NoDupKeys_single]].
       apply NoDupKeys_prune. apply pND_sub; [exact Ho|]. apply NoDupKeys_single.
+    - apply in_app_or in Hin as [Hin|[Heq|[]]]; [apply (Hs f t Hin)|]. injection Heq as <- <-. cbn [fst snd].
+      split; [apply NoDupKeys_single|split; [|apply NoDupKeys_single]].
+      apply NoDupKeys_prune. apply pND_neg. exact Ho.
+    - apply in_app_or in Hin as [Hin|[Heq|[]]]; [apply (Hs f t Hin)|]. injection Heq as <- <-. cbn [fst snd].
+      split; [exact Ho|]. split; [apply NoDupKeys_single|apply NoDupKeys_single].
+    - apply in_app_or in Hin as [Hin|[Heq|[]]]; [apply (Hs f t Hin)|]. injection Heq as <- <-. cbn [fst snd].
+      split; [apply NoDupKeys_single|]. split; [apply NoDupKeys_single|apply NoDupKeys_single].
   Qed.
 
   (** Every sample the class generator sees is well formed and genuine at the values of the run. *)
   Theorem run_state_genuine (par : nat -> Q) ops vs f :
-    mwf ops minit = true -> prox_ok W ops = true -> Forall op_nodup ops ->
+    mwf ops minit = true -> steps_ok W ops = true -> Forall op_nodup ops ->
     let s := mrun ops minit in
     let rho := fst (wrun W ops minit vs) in
     let phi := snd (wrun W ops minit vs) in
@@ -125,6 +165,14 @@ Section Instances.
     Variable hp : bool.
     Variable res : R -> E -> E.
     Hypothesis Hres : prox_spec (genuine_grad F) (dval F) hp res.
+    (* an inexact first-order oracle: ie relative eps x is within the accuracy eps of the gradient at x
+       (e.g. the gradient itself, [exact_direction]) *)
+    Variable ie : bool -> R -> E -> E.
+    Hypothesis Hie : inexact_spec (dgrad F) ie.
+    (* optionally: an exact line / span search *)
+    Variable hs : bool.
+    Variable ls : E -> list E -> E.
+    Hypothesis Hls : ls_spec (dgrad F) hs ls.
 
     Lemma dfn_orc_genuine (f : nat) (x : E) : genuine_grad F (x, dgrad F x, dval F x).
     Proof. split; [apply veq_refl|reflexivity]. Qed.
@@ -142,19 +190,24 @@ Section Instances.
       mkW (fun _ x => (dgrad F x, dval F x)) (fun _ t => genuine_grad F t) (fun _ => (xs, dval F xs))
           dfn_orc_genuine dfn_stat_genuine dfn_gen_veq dfn_gen_xveq
           (fun _ => hp) (fun _ => res) (fun _ gamma x0 => dval F (res gamma x0))
-          (fun _ gamma x0 H Hg => Hres H gamma x0 Hg).
+          (fun _ gamma x0 H Hg => Hres H gamma x0 Hg)
+          (fun _ => false) (fun _ d => (d, 0)) (no_lmo _ _)
+          (fun _ => ie) (fun _ => Hie)
+          (fun _ => hs) (fun _ => ls) (fun _ x0 ds H => Hls H x0 ds).
   End DfnWorld.
 
   (** Any first-order method run on any real mu-strongly convex L-smooth function: every interpolation
       constraint PEPit generates for the recorded samples holds at the values of the run. *)
   Theorem run_satisfies_smooth_strongly_convex (mu L : R) (qmu qL : Q) (F : @dfn E) (xs : E)
       (Hxs : veq (dgrad F xs) vzero) (Hext : respects_veq F)
-      (hp : bool) (res : R -> E -> E) (Hres : prox_spec (genuine_grad F) (dval F) hp res) ops vs :
+      (hp : bool) (res : R -> E -> E) (Hres : prox_spec (genuine_grad F) (dval F) hp res)
+      (ie : bool -> R -> E -> E) (Hie : inexact_spec (dgrad F) ie)
+      (hs : bool) (ls : E -> list E -> E) (Hls : ls_spec (dgrad F) hs ls) ops vs :
     0 <= mu < L -> smooth_strongly_convex_member mu L F ->
     Q2R qL = L -> Q2R qmu = mu ->
     mwf ops minit = true -> Forall op_nodup ops ->
-    let W := dfn_world F xs Hxs Hext hp res Hres in
-    prox_ok W ops = true ->
+    let W := dfn_world F xs Hxs Hext hp res Hres ie Hie hs ls Hls in
+    steps_ok W ops = true ->
     let par := fun p => match p with 0%nat => qL | 1%nat => qmu | _ => 0%Q end in
     all_satisfied (fst (wrun W ops minit vs)) (snd (wrun W ops minit vs))
       (run_plan plan_SmoothStronglyConvexFunction (fstate_of par (mrun ops minit) 0)).
@@ -204,7 +257,10 @@ Section Instances.
       mkW (fun _ x => (sel x, val F x)) (fun _ t => genuine_sub F t) (fun _ => (xs, val F xs))
           fn_orc_genuine fn_stat_genuine fn_gen_veq fn_gen_xveq
           (fun _ => hp) (fun _ => res) (fun _ gamma x0 => val F (res gamma x0))
-          (fun _ gamma x0 H Hg => Hres H gamma x0 Hg).
+          (fun _ gamma x0 H Hg => Hres H gamma x0 Hg)
+          (fun _ => false) (fun _ d => (d, 0)) (no_lmo _ _)
+          (fun f _ _ x => sel x) (exact_inexact_bound (fun _ x => (sel x, val F x)))
+          (fun _ => false) (fun _ x0 _ => x0) (no_ls _ _).
   End FnWorld.
 
   Theorem run_satisfies_convex (F : @fn E) (sel : E -> E) (Hsel : forall x, subgrad F x (sel x))
@@ -212,7 +268,7 @@ Section Instances.
       (hp : bool) (res : R -> E -> E) (Hres : prox_spec (genuine_sub F) (val F) hp res) ops vs :
     mwf ops minit = true -> Forall op_nodup ops ->
     let W := fn_world F sel Hsel xs Hxs Hext hp res Hres in
-    prox_ok W ops = true ->
+    steps_ok W ops = true ->
     all_satisfied (fst (wrun W ops minit vs)) (snd (wrun W ops minit vs))
       (run_plan plan_ConvexFunction (fstate_of (fun _ => 0%Q) (mrun ops minit) 0)).
   Proof.
